@@ -394,7 +394,7 @@ EXECUTORS = {"case": ex_case, "prim": ex_prim, "resample": ex_resample}
 
 def run(ctx):
     thorough = ctx.tier == "thorough"
-    n = (12000 if thorough else 400) // ctx.nshards
+    n = (180000 if thorough else 400) // ctx.nshards
     for j in range(n):
         r = ctx.rng("c06", j)
         case = gridcases.gen_case(r, max_cells=40, max_mag=6, max_events=60, events_in_zero=False,
@@ -407,7 +407,7 @@ def run(ctx):
             ctx.sample({"cells": case["nx"] * case["ny"], "mags": case["nmag"], "n_events": len(case["ev_cell"]),
                         "zero_rate_bins": int((numpy.array(case["rates"]) == 0).sum()), "tests": PTESTS + BTESTS, "sources": ["seed", "inject", "hostile"]})
     # primitives with boundary draws on long arrays (float cumsum[-1]/sum below 1 is common beyond 8 elements)
-    for j in range((4000 if thorough else 150) // ctx.nshards):
+    for j in range((60000 if thorough else 150) // ctx.nshards):
         r = ctx.rng("c06prim", j)
         nb = int(r.integers(1, 2000 if j % 10 == 0 else 120))
         r1d = 10 ** r.uniform(-8, 2, nb)
@@ -421,7 +421,7 @@ def run(ctx):
         u = r.choice(bd, int(r.integers(1, 80)))
         ex_prim(ctx, r1d, int(u.size), u, "poisson")
         ctx.nt(digest(("prim", ctx.seed, ctx.shard, j)))
-    for j in range((1500 if thorough else 60) // ctx.nshards):
+    for j in range((22500 if thorough else 60) // ctx.nshards):
         r = ctx.rng("c06rs", j)
         for t in ("RM", "MLL"):
             ex_resample(ctx, int(r.integers(0, 10 ** 6)), t, seed=[0, 0, 17, 12345][j % 4], n_obs=int(r.integers(1, 12)))
